@@ -90,7 +90,12 @@ where
         }
         y.longterm_bundles
             .entry(id)
-            .and_modify(|bundles| bundles.push(key_bundle.clone()))
+            .and_modify(|bundles| {
+                // Adding a bundle we already know is a no-op.
+                if !bundles.contains(&key_bundle) {
+                    bundles.push(key_bundle.clone())
+                }
+            })
             .or_insert(vec![key_bundle]);
         Ok(y)
     }
